@@ -591,6 +591,10 @@ def _check_edge_overlap(begin: sc.Variable, end: sc.Variable) -> None:
     begin, end = edges['edge', 0], edges['edge', 1]
     if sc.any(begin[1:] <= end[:-1]):
         raise ValueError('The chopper has overlapping slits.')
+    # A slit that spans TDC (end > 360 deg) must not reach into the first slit.
+    full_turn = sc.scalar(2 * np.pi, unit='rad').to(unit=end.unit)
+    if len(begin) > 1 and sc.any(sc.max(end) - full_turn >= sc.min(begin)):
+        raise ValueError('The chopper has overlapping slits.')
 
 
 def _broadcast_slit_height(
